@@ -1,4 +1,5 @@
 from abc import abstractmethod, ABC
+from scipy.sparse import issparse
 from skglm.utils.validation import check_attrs
 
 
@@ -107,6 +108,12 @@ class BaseSolver(ABC):
         return self._solve(X, y, datafit, penalty, w_init, Xw_init)
 
     def _validate(self, X, y, datafit, penalty):
+        # the sparse kernels read X.data, X.indptr, X.indices as a CSC matrix
+        if issparse(X) and X.format != "csc":
+            raise ValueError(
+                "Sparse X must be in CSC format (scipy.sparse.csc_matrix), "
+                f"got format '{X.format}'. Convert it with `X.tocsc()`.")
+
         # execute: `custom_checks` then check attributes
         self.custom_checks(X, y, datafit, penalty)
 
